@@ -177,9 +177,13 @@ impl Record {
 
         let line_base_count = self.line_base_count.get();
         let line_width = self.line_width.get();
-        let pos = self.position() + start / line_base_count * line_width + start % line_base_count;
 
-        Ok(pos)
+        // The offset is calculated using 128 bits so that index-supplied values cannot overflow it.
+        let pos = u128::from(self.position())
+            + u128::from(start / line_base_count) * u128::from(line_width)
+            + u128::from(start % line_base_count);
+
+        u64::try_from(pos).map_err(|e| io::Error::new(io::ErrorKind::InvalidInput, e))
     }
 }
 
